@@ -86,6 +86,25 @@ def build_initial(init: dict) -> bytes:
         out = io.BytesIO()
         D.write_zip(members, out)
         return out.getvalue()
+    if init["deck"] == "gengap":
+        from pptx.chart.data import CategoryChartData
+        from pptx.enum.chart import XL_CHART_TYPE
+        prs = pptx.Presentation()
+        for k in range(2):
+            s = prs.slides.add_slide(prs.slide_layouts[6])
+            cd = CategoryChartData()
+            cd.categories = ["a", "b"]
+            cd.add_series("s%d" % k, (1 + k, 2))
+            s.shapes.add_chart(XL_CHART_TYPE.COLUMN_CLUSTERED, 0, 0, 3000000, 2000000, cd)
+        b = io.BytesIO()
+        prs.save(b)
+        members = D.read_zip(io.BytesIO(b.getvalue()))
+        assert "ppt/charts/chart2.xml" in members and "ppt/embeddings/Microsoft_Excel_Sheet2.xlsx" in members
+        members = F.rename_parts(members, {"/ppt/charts/chart2.xml": "/ppt/charts/chart3.xml",
+                                           "/ppt/embeddings/Microsoft_Excel_Sheet2.xlsx": "/ppt/embeddings/Microsoft_Excel_Sheet3.xlsx"})
+        out = io.BytesIO()
+        D.write_zip(members, out)
+        return out.getvalue()
     if init["deck"] == "gengeneric":
         prs = pptx.Presentation()
         prs.slides.add_slide(prs.slide_layouts[6])
